@@ -88,8 +88,15 @@ let run_case (toks : string list) : string =
   match (match toks with t0 :: off :: r -> t0 :: off :: drop_ann r | l -> l) with
   | t0 :: off :: ";" :: ops ->
     let ops = List.map op_of_string (List.filter (fun s -> s <> "") ops) in
-    let (_, obs) = run (sys0 (z_of_int (int_of_string t0)) (z_of_int (int_of_string off))) ops in
-    let l = List.map string_of_obs obs in
+    (* step by step: once the (modelled) process is dead - its kill point is used up - nothing can be observed
+       any more until the crash is acknowledged (CR) *)
+    let x = ref (sys0 (z_of_int (int_of_string t0)) (z_of_int (int_of_string off))) in
+    let l = List.map (fun o ->
+        let (x', ob) = step !x o in
+        x := x';
+        match o with
+        | OCrash -> string_of_obs ob
+        | _ -> if alive (!x).s_w then string_of_obs ob else ("x", "x")) ops in
     String.concat " " (List.map fst l) ^ " # " ^ String.concat "" (List.map snd l)
   | _ -> failwith "flw case"
 
